@@ -29,8 +29,13 @@ fn tref(dep: &Value) -> TypeRef {
   let mut t = match dep {
     Value::String(s) => TypeRef::new(RustPrimitive::Custom(s.as_str().into())),
     other => {
-      let n = other["map"].as_str().unwrap_or("X");
-      TypeRef::new(format!("std::collections::HashMap<String, {n}>"))
+      if let Some(n) = other["arr"].as_str() {
+        // array whose items are an array (of) N: `TypeRef::new(item.to_rust_type()).with_vec()` in type_resolver
+        TypeRef::new(format!("Vec<{n}>")).with_vec()
+      } else {
+        let n = other["map"].as_str().unwrap_or("X");
+        TypeRef::new(format!("std::collections::HashMap<String, {n}>"))
+      }
     }
   };
   if dep.get("vec").and_then(Value::as_bool).unwrap_or(false) {
@@ -123,7 +128,7 @@ fn post(input: &Value) -> OpResult {
 // digest of emitted files
 
 /// (name, through_map, through_vec) for every single-segment path type below `ty` that is not a std wrapper
-fn walk(ty: &syn::Type, map: bool, vec: bool, out: &mut Vec<(String, bool, bool)>, paths: &mut Vec<String>) {
+fn walk(ty: &syn::Type, map: bool, vec: bool, arr: bool, wrap: bool, out: &mut Vec<(String, bool, bool, bool, bool)>, paths: &mut Vec<String>) {
   match ty {
     syn::Type::Path(tp) => {
       let last = tp.path.segments.last().unwrap();
@@ -134,23 +139,26 @@ fn walk(ty: &syn::Type, map: bool, vec: bool, out: &mut Vec<(String, bool, bool)
       };
       let single = tp.path.segments.len() == 1;
       match name.as_str() {
-        "Option" | "Box" => args.iter().for_each(|a| walk(a, map, vec, out, paths)),
-        "Vec" | "HashSet" | "BTreeSet" => args.iter().for_each(|a| walk(a, map, true, out, paths)),
-        "HashMap" | "BTreeMap" => args.iter().for_each(|a| walk(a, true, vec, out, paths)),
+        // a TypeRef prints as Option<Vec<Box<base>>>; a Vec or an Option INSIDE a Vec can only come from a base
+        // type whose atom is the whole text (`Vec<X>` / `Option<X>` built by array_item_type().to_rust_type())
+        "Box" => args.iter().for_each(|a| walk(a, map, vec, arr, true, out, paths)),
+        "Option" => args.iter().for_each(|a| walk(a, map, vec, arr || vec, true, out, paths)),
+        "Vec" | "HashSet" | "BTreeSet" => args.iter().for_each(|a| walk(a, map, true, arr || vec, true, out, paths)),
+        "HashMap" | "BTreeMap" => args.iter().for_each(|a| walk(a, true, vec, arr, true, out, paths)),
         _ => {
           if single {
-            out.push((name, map, vec));
+            out.push((name, map, vec, arr, wrap));
           } else {
             paths.push(tp.path.segments.iter().map(|s| s.ident.to_string()).collect::<Vec<_>>().join("::"));
           }
-          args.iter().for_each(|a| walk(a, map, vec, out, paths));
+          args.iter().for_each(|a| walk(a, map, vec, arr, true, out, paths));
         }
       }
     }
-    syn::Type::Reference(r) => walk(&r.elem, map, vec, out, paths),
-    syn::Type::Tuple(t) => t.elems.iter().for_each(|e| walk(e, map, vec, out, paths)),
-    syn::Type::Array(a) => walk(&a.elem, map, vec, out, paths),
-    syn::Type::Slice(a) => walk(&a.elem, map, vec, out, paths),
+    syn::Type::Reference(r) => walk(&r.elem, map, vec, arr, wrap, out, paths),
+    syn::Type::Tuple(t) => t.elems.iter().for_each(|e| walk(e, map, vec, arr, true, out, paths)),
+    syn::Type::Array(a) => walk(&a.elem, map, vec, arr, true, out, paths),
+    syn::Type::Slice(a) => walk(&a.elem, map, vec, arr, true, out, paths),
     _ => {}
   }
 }
@@ -165,10 +173,10 @@ fn refs_of(ty: &str) -> (Vec<Value>, Vec<String>) {
   let mut out = vec![];
   let mut paths = vec![];
   if let Ok(t) = syn::parse_str::<syn::Type>(ty) {
-    walk(&t, false, false, &mut out, &mut paths);
+    walk(&t, false, false, false, false, &mut out, &mut paths);
   }
   (
-    out.into_iter().filter(|(n, _, _)| !PRELUDE.contains(&n.as_str())).map(|(n, m, v)| json!({"to": n, "map": m, "vec": v})).collect(),
+    out.into_iter().filter(|(n, _, _, _, _)| !PRELUDE.contains(&n.as_str())).map(|(n, m, v, a, w)| json!({"to": n, "map": m, "vec": v, "arr": a, "wrap": w})).collect(),
     paths,
   )
 }
@@ -189,6 +197,7 @@ pub fn digest(files: &std::collections::HashMap<&'static str, String>) -> Value 
   let mut mentions: BTreeMap<String, BTreeSet<String>> = BTreeMap::new();
   let mut parse_errors = vec![];
   let mut impls: Vec<(String, String, String)> = vec![]; // (file, trait, self type)
+  let mut hdr_opt: Vec<(String, String)> = vec![]; // (header struct, member read as Option by the HeaderMap conversion)
   for (fname, code) in files {
     let f = facts::file_facts(code);
     if let Some(e) = f.get("parse_error") {
@@ -223,15 +232,18 @@ pub fn digest(files: &std::collections::HashMap<&'static str, String>) -> Value 
               let fa = strs(&fd["attrs"]);
               let (refs, _) = refs_of(ty);
               let sep = fa.iter().any(|a| a.starts_with("serde_as(") && a.contains("StringWith") && a.contains("Separator"));
-              json!({"name": fd["name"], "refs": refs, "dur": ty.contains("chrono::Duration"),
+              json!({"name": fd["name"], "refs": refs, "dur": ty.contains("chrono::Duration"), "opt": ty.starts_with("Option<"),
                 "nested": fa.iter().any(|a| a.starts_with("validate(") && (a.contains("(nested") || a.contains(",nested"))),
                 "len": fa.iter().any(|a| a.starts_with("validate(") && a.contains("length(")),
+                // `#[serde_as(as = "Option<…>")]`: does the adapter wrap in Option (must agree with the member type)
+                "asOpt": fa.iter().any(|a| a.starts_with("serde_as(") && a.contains("as=\"Option<")),
+                "serdeAsAttr": fa.iter().any(|a| a.starts_with("serde_as(")),
                 "sep": sep, "sepStr": vec_elem(ty).is_some_and(|e| e == "String")})
             })
             .collect();
           items.push(json!({"file": fname, "kind": "struct", "name": name, "vis": it["vis"], "ser": has("Serialize"), "de": has("Deserialize"),
             "val": has("Validate"), "bare": derives.iter().filter(|d| !d.contains("::")).collect::<Vec<_>>(),
-            "serdeAs": attrs.iter().any(|a| a.starts_with("serde_with::serde_as") || a == "serde_as"), "fields": fields}));
+            "serdeAs": attrs.iter().any(|a| a.starts_with("serde_with::serde_as") || a == "serde_as"), "reqStruct": !has("PartialEq"), "fields": fields}));
         }
         "enum" => {
           let mut refs = vec![];
@@ -246,7 +258,7 @@ pub fn digest(files: &std::collections::HashMap<&'static str, String>) -> Value 
           }
           let fields = vec![json!({"name": "", "refs": refs, "nested": false, "sep": false, "sepStr": false})];
           items.push(json!({"file": fname, "kind": "enum", "name": name, "vis": it["vis"], "ser": has("Serialize"), "de": has("Deserialize"),
-            "val": false, "bare": derives.iter().filter(|d| !d.contains("::")).collect::<Vec<_>>(), "fields": fields, "variants": vnames, "evstream": evstream}));
+            "val": false, "bare": derives.iter().filter(|d| !d.contains("::")).collect::<Vec<_>>(), "fields": fields, "variants": vnames, "evstream": evstream, "respEnum": !has("PartialEq") && !has("Serialize") && !has("Deserialize")}));
         }
         "type" => {
           let (refs, _) = refs_of(it["ty"].as_str().unwrap_or(""));
@@ -257,6 +269,19 @@ pub fn digest(files: &std::collections::HashMap<&'static str, String>) -> Value 
           let tr = it["trait"].as_str().unwrap_or("").to_string();
           let short = tr.split('<').next().unwrap_or("").rsplit("::").next().unwrap_or("").to_string();
           impls.push(((*fname).to_string(), short.clone(), name.clone()));
+          // `impl TryFrom<&X> for http::HeaderMap`: which members of X does the conversion read as `Option`
+          // (`if let Some(value) = &headers.<member>`)?
+          if name == "http::HeaderMap" {
+            if let Some(x) = tr.split("TryFrom<&").nth(1).map(|r| r.trim_end_matches('>').to_string()) {
+              for m in it["methods"].as_array().into_iter().flatten() {
+                let body = m["body"].as_str().unwrap_or("");
+                for part in body.split("Some(value)=&headers.").skip(1) {
+                  let f: String = part.chars().take_while(|c| c.is_alphanumeric() || *c == '_' || *c == '#').collect();
+                  hdr_opt.push((x.clone(), f));
+                }
+              }
+            }
+          }
           // constructor parameter lists (`fn new(..)`) of inherent impls
           if tr.is_empty() {
             for m in it["methods"].as_array().into_iter().flatten() {
@@ -286,6 +311,15 @@ pub fn digest(files: &std::collections::HashMap<&'static str, String>) -> Value 
           items.push(json!({"file": fname, "kind": kind, "name": name, "vis": it["vis"], "ser": false, "de": false, "val": false, "bare": [], "fields": [], "bytesBody": bytes_body, "optBody": opt_body}));
         }
         _ => {}
+      }
+    }
+  }
+  for it in &mut items {
+    if it["kind"] == "struct" {
+      let sname = it["name"].as_str().unwrap_or("").to_string();
+      for fd in it["fields"].as_array_mut().into_iter().flatten() {
+        let fname = fd["name"].as_str().unwrap_or("").to_string();
+        fd["hdrOpt"] = json!(hdr_opt.iter().any(|(x, f)| *x == sname && *f == fname));
       }
     }
   }
